@@ -76,21 +76,66 @@ func (P *Prog) condAtom(c ssa.Value, at ssa.Instruction) (*Term, bool) {
 			if y.Op == "const" && y.Name == "false" {
 				return x, !pos
 			}
+			// three-way comparisons: Cmp(a,b) == 1 is Cmp(b,a) == -1 is Cmp(b,a) < 0
+			for _, pr := range [][2]*Term{{x, y}, {y, x}} {
+				if isCmpCall(pr[0]) && pr[1].Op == "const" {
+					switch pr[1].Name {
+					case "-1":
+						return mk("<", pr[0], constTerm("0")), pos
+					case "1":
+						return mk("<", swapCmp(pr[0]), constTerm("0")), pos
+					}
+				}
+			}
 			if x.String() > y.String() {
 				x, y = y, x
 			}
 			return mk("==", x, y), pos
 		case token.LSS:
-			return mk("<", x, y), pos
+			return cmpLess(mk, x, y, pos)
 		case token.GTR:
-			return mk("<", y, x), pos
+			return cmpLess(mk, y, x, pos)
 		case token.GEQ:
-			return mk("<", x, y), !pos
+			return cmpLess(mk, x, y, !pos)
 		case token.LEQ:
-			return mk("<", y, x), !pos
+			return cmpLess(mk, y, x, !pos)
 		}
 	}
-	return P.TermAt(c, at), pos
+	t := P.TermAt(c, at)
+	for t.Op == "unop" && t.Name == "!" && len(t.Args) == 1 {
+		pos = !pos
+		t = t.Args[0]
+	}
+	return t, pos
+}
+
+func constTerm(s string) *Term { return &Term{Op: "const", Name: s} }
+
+func isCmpCall(t *Term) bool {
+	return (t.Op == "call" || t.Op == "invoke") && len(t.Args) == 2 && (strings.HasSuffix(t.Name, ".Cmp") || strings.HasSuffix(t.Name, ".Compare"))
+}
+
+func swapCmp(t *Term) *Term {
+	n := *t
+	n.Args = []*Term{t.Args[1], t.Args[0]}
+	return &n
+}
+
+// cmpLess renders x < y (with polarity); tests of a three-way comparison against 0 / ±1 get one spelling:
+// 0 < Cmp(a,b) is Cmp(b,a) < 0 ; Cmp(a,b) < 1 is !(Cmp(b,a) < 0) ; -1 < Cmp(a,b) is !(Cmp(a,b) < 0).
+func cmpLess(mk func(string, *Term, *Term) *Term, x, y *Term, pos bool) (*Term, bool) {
+	if isCmpCall(y) && x.Op == "const" {
+		switch x.Name {
+		case "0":
+			return mk("<", swapCmp(y), constTerm("0")), pos
+		case "-1":
+			return mk("<", y, constTerm("0")), !pos
+		}
+	}
+	if isCmpCall(x) && y.Op == "const" && y.Name == "1" {
+		return mk("<", swapCmp(x), constTerm("0")), !pos
+	}
+	return mk("<", x, y), pos
 }
 
 func isNilConst(t *Term) bool { return t.Op == "const" && t.Name == "nil" }
